@@ -7,7 +7,7 @@ _EXPL = ("Exploration, not proof: the verdict is 'held on the executions of this
 
 META = {
     "C01": {
-        "technique": "runtime monitoring: real reconciliation sessions between two real stores driven message by message; final dumps compared with the reference-model join, message budget, follow-up session, mirrored counters",
+        "technique": "runtime monitoring: real reconciliation sessions between two real stores driven message by message; final dumps compared with the reference-model join, message budget, follow-up session, mirrored counters; one case in three also through the real session drivers (run_alice / BobState) behind store actors",
         "design_ref": "DESIGN.md §5 C01, §2.2",
         "level_text": "Pairs of reachable replica states (built through the real insert paths) are reconciled with either side initiating, on memory/file stores and under the split-factor / max-set-size grid (hook H2). Both dumps must equal the executable specification's join of the two start dumps, within a logical message budget; the next session must carry no entry. " + _EXPL,
         "level_note": "Trusts the harness's replica specification (self-checked on every case) and the full-scan dump. Bounds: <=24 (quick) / 64 (thorough) entries per side, <=4 authors, keys <=4 bytes.",
@@ -25,7 +25,7 @@ META = {
         "level_note": "Trusts the hand-written postcard mirror encoder (self-checked against the crate on real entries). Acceptability by supersession is judged with the replica specification over the dump actually held.",
     },
     "C04": {
-        "technique": "runtime monitoring: seeded fault-injecting scheduler over 2..5 real replicas (lossy/duplicating/reordering broadcast, cut sessions, restarts, skewed clocks), then bounded-progress closing rounds; dumps compared with the merge of accepted writes",
+        "technique": "runtime monitoring: seeded fault-injecting scheduler over 2..5 real replicas (lossy/duplicating/reordering broadcast, cut sessions, restarts, skewed clocks), then bounded-progress closing rounds; dumps compared with the merge of accepted writes; plus a swarm of complete docs nodes on loopback (real gossip, QUIC sessions) judged at the client API and event boundary",
         "design_ref": "DESIGN.md §5 C04",
         "level_text": "Eventual consistency is decided in a bounded-progress form: after faults stop, rounds of complete sessions over a connected pair set must reach a round that transfers nothing within diameter+2 rounds, and then every replica must equal the specification's merge of all acknowledged local writes; at every step no replica may hold an entry nobody wrote. Light mode uses the raw replica API, actor mode the real session drivers over in-memory pipes. " + _EXPL,
         "level_note": "Unbounded 'eventually' is out of reach of runtime monitoring; only the bounded form is decided. Clock skew is kept within +-4 minutes (beyond the 10 minute bound convergence is not promised).",
@@ -37,7 +37,7 @@ META = {
         "level_note": "Ties on the newest timestamp in latest-per-key queries are accepted on any maximal entry; windowed latest-per-key queries are compared with the window of the unwindowed result of the same store.",
     },
     "C06": {
-        "technique": "runtime monitoring with fault injection: crash images (file copied without commit, and real SIGKILLs) reopened and compared with the states a shadow instance passed through; age-based commit forced at every internal store access (hook H6)",
+        "technique": "runtime monitoring with fault injection: crash images (file copied without commit, and real SIGKILLs) reopened and compared with the states a shadow instance passed through; age-based commit forced at every internal store access (hook H6); child processes opening old-format store files killed by strace on entry to each file-system call",
         "design_ref": "DESIGN.md §5 C06, Appendix C",
         "level_text": "For every operation of every history: an image after the call, an image at every internal store access with the auto-commit forced there (all accesses, and single placements), plus killed child processes. The reopened image must open, equal a shadow state between the last acknowledged flush and the operation in progress, and be internally coherent (lookups, both scans, heads). Enumerates crash points and commit placements of the generated histories; not a proof over all histories.",
         "level_note": "Covers process death (what the kernel keeps of the file), not power loss; redb's fsync discipline is trusted. Operations are single store calls; multi-entry reconciliation messages are not treated as one atomic operation.",
@@ -61,57 +61,57 @@ META = {
         "level_note": "Trusts the hand-written encoder and the three hex snapshots of the test-suite as the definition of the pinned encodings.",
     },
     "C10": {
-        "technique": "runtime monitoring with fault enumeration: every adversarial frame sequence up to length 3 (thorough 4) against the real initiator and acceptor drivers over in-memory pipes; real<->real sessions with a local fault before every frame; shutdown races; a complete docs node on loopback against a hand-driven peer (declined requests must leave the store unchanged)",
+        "technique": "runtime monitoring with fault enumeration: every adversarial frame sequence up to length 3 (thorough 4) against the real initiator and acceptor drivers over in-memory pipes; real<->real sessions with a local fault before every frame; shutdown races; a complete docs node on loopback against a hand-driven peer (declined requests must leave the store unchanged); mirrored session reports in a swarm of complete nodes",
         "design_ref": "DESIGN.md §5 C10",
         "level_text": "Exhaustive over the 15-letter frame alphabet up to the bounded length (x4 accept decisions), plus every fault position (close replica, sync off, actor shutdown, cut after / inside frame) of generated real sessions, plus requests racing with actor shutdown. Each side must end with Ok or a reported error, the outcome must be collectable, declines must not change the store, counters mirror on success, the actor must stay responsive. Non-termination is decided on exhausted inputs (streams closed, actor answering), not on a deadline.",
         "level_note": "The mirror equation is not judged when the harness cut the stream cleanly at a frame boundary: end-of-stream is the protocol's end marker and only an in-memory pipe can produce it on both sides mid-session.",
     },
     "C11": {
-        "technique": "runtime monitoring: seeded scheduler over the real coordination state and completion handlers of two/three real live actors (hook H5), with a network model that owns only in-flight objects; invariants S1-S5 checked after every event; plus a complete docs node on loopback QUIC driven by a hand-written hostile peer and judged at the wire and event boundary",
+        "technique": "runtime monitoring: seeded scheduler over the real coordination state and completion handlers of two/three real live actors (hook H5), with a network model that owns only in-flight objects; invariants S1-S5 checked after every event, incl. histories in which a node leaves and rejoins with a session in flight; plus a complete docs node on loopback QUIC driven by a hand-written hostile peer and judged at the wire and event boundary",
         "design_ref": "DESIGN.md §5 C11, Appendix A",
         "level_text": "Random schedules of dial decisions, request delivery/loss, decline replies delivered/lost, and independent successful or failed completion of both session ends (including the acceptor's bookkeeping being overtaken by a re-dial), in both id orders. After every event: at most one session in progress per pair, crossing dials resolve to exactly one, refused reports lead to exactly one resync, nothing in flight implies both slots idle and a probe dial is accepted, unsynced documents are declined as not found. Net mode runs the real accepting stack (net::handle_connection inside the running engine) against a peer that holds sessions open, dials again, and ends declined connections orderly, abruptly, by reset or by stop: no request may be accepted while an earlier accepted session still answers, no end of session may be reported for a session never allowed, and once every accepted session was reported finished the next request must be accepted. " + _EXPL,
         "level_note": "Progress ('never permanently busy') is decided at quiescent points of bounded histories (<=6 dials, <=14/24 events). The network model imposes only causality; handlers are invoked directly, not through the actor's select loop.",
     },
     "C12": {
-        "technique": "runtime monitoring: subscriber channels drained after every acknowledged request of a real store actor; observational oracle (before/after lookups) for single entries, specification prediction for multi-entry messages",
+        "technique": "runtime monitoring: subscriber channels drained after every acknowledged request of a real store actor; observational oracle (before/after lookups) for single entries, specification prediction for multi-entry messages; event streams of complete docs nodes in a swarm, missing events judged behind a fence write",
         "design_ref": "DESIGN.md §5 C12",
         "level_text": "Histories of local inserts, deletions, remote inserts, single- and multi-entry reconciliation messages (with invalid entries) and sessions in which a local write lands between two messages, with up to four subscribers joining, unsubscribing and dropping receivers and changing download policies; one case in eight has a slow subscriber (bounded channel drained with a delay) and callers that give up on requests while the actor waits in event delivery, judged against the final replica content. Exactly the applied entries produce exactly one event per current subscriber, with the right kind, peer, status, flag and order. " + _EXPL,
         "level_note": "'Applied' is read off the call result and lookups, so a defect of the merge rules does not masquerade as an event defect; the download flag oracle is C15's matcher.",
     },
     "C13": {
-        "technique": "runtime monitoring: per-step invariant 'heads == per-author maximum of the dump actually held' and news-count oracle over histories with decreasing arrival, removal and re-creation; size-limit oracle for head encodings",
+        "technique": "runtime monitoring: per-step invariant 'heads == per-author maximum of the dump actually held' and news-count oracle over histories with decreasing arrival, removal and re-creation; size-limit oracle for head encodings; hand-encoded wire reports naming an author twice",
         "design_ref": "DESIGN.md §5 C13",
         "level_text": "After every step of random histories on two neighbouring documents the reported heads must equal the per-author maxima of the dump and has_news_for_us must count exactly the unknown or strictly newer authors of probe reports; head sets with many shared timestamps must round-trip, and under every limit keep the newest heads that fit. " + _EXPL,
         "level_note": "On equal timestamps any head key is accepted; limit 0 is excluded (the empty list needs one byte).",
     },
     "C14": {
-        "technique": "runtime monitoring: sequential specification of the actor compared step by step; concurrent client histories recorded at the client boundary and checked for linearizability (per-document DFS) against the same specification; (thorough) ThreadSanitizer sub-run",
+        "technique": "runtime monitoring: sequential specification of the actor compared step by step; concurrent client histories recorded at the client boundary and checked for linearizability (per-document DFS) against the same specification; author deletion / import between requests; (thorough) ThreadSanitizer sub-run",
         "design_ref": "DESIGN.md §5 C14, Appendix B",
         "level_text": "Random request sequences over two documents (open/close counting, sync switch, gated operations, removal, shutdown) are compared reply by reply and by get_state with an executable specification; histories of 2-4 concurrent clients on a multi-thread runtime must be linearizable; the store handed back by shutdown must hold every acknowledged write. " + _EXPL,
         "level_note": "Histories are short (<=20 operations, <=4 clients) so the linearizability search is tiny; a checker time-out is reported as inconclusive. The handle count after a refused removal is adopted from the actor (not part of the statement).",
     },
     "C15": {
-        "technique": "runtime monitoring: one-line matcher specification compared with DownloadPolicy::matches over all keys; persistence model; textual round-trips; event flags from a real actor; download decisions of a real live actor observed through hook H7",
+        "technique": "runtime monitoring: one-line matcher specification compared with DownloadPolicy::matches over all keys; persistence model; textual round-trips; event flags from a real actor; download decisions of a real live actor observed through hook H7; blob stores of complete nodes in a swarm inspected for content the policy excludes",
         "design_ref": "DESIGN.md §5 C15",
         "level_text": "Policies of both kinds with 0-5 exact/prefix filters (empty, non-UTF-8, colon-containing) against every key up to length 3 over the alphabet; set/get persistence across reopen and documents; parse(display(f)) == f; should_download of real events equals the matcher. Live mode: entries under random policies through the real store actor, their events handed to the live actor's own handler, neighbours announcing content; content is queued for download or remembered as missing exactly when the policy selects the entry's key. " + _EXPL,
         "level_note": "Trusts the matcher specification in the harness (four lines).",
     },
     "C16": {
-        "technique": "runtime monitoring: snapshot-diff of every observable of every other document around each removal / re-creation / write; exact comparison of the protected hash set with the dumps",
+        "technique": "runtime monitoring: snapshot-diff of every observable of every other document around each removal / re-creation / write; exact comparison of the protected hash set with the dumps; complete engine driven through client handles (protect callback, open guard)",
         "design_ref": "DESIGN.md §5 C16",
         "level_text": "Stores with 3-5 documents whose ids are byte neighbours (searched ids ending in FF / 00, read-only ids 00..00, FF..FF, ..FFFF) go through writes, removals (also attempted while open) and re-creations; after each step the removed document must show nothing, all others must be byte-identical to their snapshot, and content_hashes() must equal the hashes held. " + _EXPL,
         "level_note": "Entries of documents whose id is not a public key are placed below the validation layer (hook H3), because they cannot be signed.",
     },
     "C17": {
-        "technique": "runtime monitoring: MRU list model compared with get_sync_peers after every registration",
+        "technique": "runtime monitoring: MRU list model compared with get_sync_peers after every registration; reopen through files of the redb-2.x on-disk format; crash images inside registrations (hook H6)",
         "design_ref": "DESIGN.md §5 C17",
         "level_text": "Random registration sequences over 1-8 peers and two documents with reopen and unknown documents; the list must equal the five most recently registered distinct peers, most recent first, after every step. " + _EXPL,
         "level_note": "Registration order is by wall-clock nanoseconds in the store; two registrations are assumed to get distinct clock readings.",
     },
     "C18": {
-        "technique": "runtime monitoring: derived tables deleted with plain redb, store reopened, heads and key-ordered queries compared with the reference evaluator over the records; observables compared across reopen cycles",
+        "technique": "runtime monitoring: derived tables deleted with plain redb, store reopened, heads and key-ordered queries compared with the reference evaluator over the records; observables compared across reopen cycles; files also in the redb-2.x on-disk format",
         "design_ref": "DESIGN.md §5 C18",
         "level_text": "Multi-document, multi-author stores with markers and equal timestamps are flushed; the head table, the by-key index, both or none are deleted with plain redb; after reopening, heads must equal the per-author maxima, key-ordered and latest-per-key queries must match C05's evaluator, and 1-3 further reopen cycles must change nothing. " + _EXPL,
-        "level_note": "Only the two derived tables named in the statement are deleted; older on-disk formats (namespaces v1, redb 2.x tuples) are covered by the repository's own migration tests.",
+        "level_note": "Only the two derived tables named in the statement are deleted; the namespaces-v1 table shape and the redb-2.x on-disk format are produced by the harness (plain redb, redb 3 Legacy types); older redb versions cannot be written here.",
     },
 }
